@@ -351,6 +351,9 @@ func (m matcherSpec) build(w *world) bothMatcher {
 			return typeM[[]int](m)
 		case "strintmap":
 			return typeM[map[string]int](m)
+		case "any":
+			// match.Type[any]: every value satisfies it; the placeholder names the value's dynamic type
+			return typeM[any](m)
 		}
 	case "C":
 		okErr, payload := m.okErr, m.ph
@@ -393,6 +396,17 @@ func merrLine(errs []match.MatcherError) string {
 	return "ora doc merr " + strings.Join(parts, ";")
 }
 
+type ptrMoney struct{ Cents int }
+
+func (m *ptrMoney) MarshalJSON() ([]byte, error) {
+	return []byte(fmt.Sprintf("%q", fmt.Sprintf("%d.%02d EUR", m.Cents/100, m.Cents%100))), nil
+}
+
+type ptrOrder struct {
+	ID    string   `json:"id"`
+	Total ptrMoney `json:"total"`
+}
+
 type namedString string
 type namedBytes []byte
 
@@ -404,6 +418,18 @@ func goValue(form string, doc []byte) any {
 	case "vraw":
 		// a Go value that carries pre-encoded JSON: it must be validated like any other value
 		return json.RawMessage(append([]byte(nil), doc...))
+	case "vptr":
+		// a struct passed BY VALUE holding a field whose MarshalJSON has a pointer receiver: json.Marshal of a
+		// non-addressable value does not call it (the field is encoded as a plain struct)
+		var n float64
+		json.Unmarshal(doc, &n)
+		return ptrOrder{ID: "o-1", Total: ptrMoney{Cents: int(n)}}
+	case "vmapraw":
+		// a Go map holding pre-encoded JSON whose members are not in order, next to ordinary members
+		return map[string]any{"zeta": json.RawMessage(append([]byte{}, doc...)), "alpha": 1, "m": struct {
+			Z int `json:"z"`
+			A int `json:"a"`
+		}{1, 2}}
 	case "vnstr":
 		// a value of a NAMED string type (type Status string): a Go value like any other, marshalled to a
 		// JSON / YAML string whatever its content looks like
@@ -856,7 +882,17 @@ func (w *world) exec1(line string) {
 				w.cfgJSON[n] = &jc
 			}
 		}
-		w.cfgs[n] = WithConfig(opts...)
+		if len(tok) > 7 && tok[7] == "apply" {
+			// unusual but legal: an empty Config, configured afterwards by applying the options to it
+			// (conditional options); it is the caller's own Config, nothing else may change
+			c := WithConfig()
+			for _, o := range opts {
+				o(c)
+			}
+			w.cfgs[n] = c
+		} else {
+			w.cfgs[n] = WithConfig(opts...)
+		}
 		w.cfgPlain[n] = len(opts) == 1
 		fmt.Fprintf(w.ann, "cfg %d %s %s %s %s\n", n, hx(dir), tok[3], tok[4], tok[5])
 		fmt.Fprintln(w.out, "cfg ok")
